@@ -66,15 +66,21 @@ func (q *queue) Ack(prefix string, pkt packet.Packet) error {
 	switch p := pkt.(type) {
 	case Ackers:
 		k := hashKey(prefix, p.GetMessageId())
-		v, ok := q.msg.Delete(k)
+		v, ok := q.msg.Get(k)
 		if !ok {
+			return ErrWrongMID
+		}
+		if state := v.(message).state; state != pkt.Type() {
+			// not the acknowledgement this exchange waits for: leave it in flight
+			return fmt.Errorf("unexpected packet type: wanted %v, got %v", state, pkt.Type())
+		}
+		v, ok = q.msg.Delete(k)
+		if !ok {
+			// expired in the meantime
 			return ErrWrongMID
 		}
 		msg := v.(message)
 		q.timeouts.Delete(k, msg.deadline)
-		if msg.state != pkt.Type() {
-			return fmt.Errorf("unexpected packet type: wanted %v, got %v", msg.state, pkt.Type())
-		}
 		msg.callback(false, msg.pkt, pkt)
 		return nil
 	default:
